@@ -138,10 +138,10 @@ func c13State(c *Ctx, n *Node) []Violation {
 
 func checkC13(e *RunEnv) *CheckResult {
 	paths := []string{"a", "d/x", "d/s/z", "n", "e/f/g/h", "d.c", "d0"}
-	ignFiles := []string{"build/o", "x.log", "sub/y.log"}
+	ignFiles := []string{"build/o", "x.log", "sub/y.log", "sub/build", "a.logx"}
 	spec := &Spec{
 		Seeds: []Seed{{"S0", seedS0()}, {"S1", seedS1()}, {"S5", seedS5()}, {"S1+siblings", append(seedS0(), Write("d/x", v1("d/x")), Write("d.c", v1("d.c")), Write("d0", v1("d0")), Write("d-x", v1("d-x")), Write("dd/k", v1("dd/k")), Run("add", "d", "d.c", "d0", "d-x", "dd"), Run("commit", "-m", "c1"))}},
-		Depth: e.pick(4, 5),
+		Depth: e.pick(3, 5),
 		Steps: func(n *Node) []Step {
 			a := n.Abs()
 			var steps []Step
